@@ -9,7 +9,9 @@ M(k)     == RMsg(k, 0, FALSE)
 MCSenders == {"s1", "s2"}
 
 Scn(d, lpv, scr, rc, pl, iv, dc) ==
-  [dir |-> d, lpv |-> lpv, script |-> scr, rclose |-> rc, plan |-> pl, invs |-> iv, disc |-> dc]
+  [dir |-> d, lpv |-> lpv, script |-> scr, rclose |-> rc, plan |-> pl, invs |-> iv, disc |-> dc,
+   net |-> "sim", loop |-> FALSE]
+OnNet(s0, n, l) == [s0 EXCEPT !.net = n, !.loop = l]
 
 PlanA == [s \in MCSenders |-> IF s = "s1" THEN <<1, 2>> ELSE <<3>>]
 PlanB == [s \in MCSenders |-> IF s = "s1" THEN <<1>> ELSE <<>>]
@@ -53,7 +55,11 @@ ScenariosQuickA ==
 \* Disconnect at any point
 ScenariosQuickB ==
   { Scn("in", 70016, HS \o <<M("ping")>>, FALSE, PlanB, <<>>, TRUE) }
-ScenariosSafetyQuick == ScenariosQuickA \cup ScenariosQuickB
+\* the documented exception for wrong-network traffic (no senders: small)
+ScenariosQuickC ==
+  { OnNet(Scn("in", 70016, HS \o <<M("wrongmagic"), M("ping")>>, FALSE, Plan0, <<>>, FALSE), n, l) :
+      n \in {"regtest", "test3"}, l \in BOOLEAN }
+ScenariosSafetyQuick == ScenariosQuickA \cup ScenariosQuickB \cup ScenariosQuickC
 ScenariosLiveQuick ==
   { Scn(d, 70016, scr, FALSE, PlanB, <<>>, dc) : d \in {"in", "out"}, scr \in NoHandshake \cup {<<Ver(208)>>}, dc \in BOOLEAN }
   \cup { Scn("in", 70016, HS, FALSE, Plan0, <<>>, TRUE), Scn("out", 70016, HS \o <<M("malformed")>>, FALSE, Plan0, <<>>, FALSE) }
@@ -74,7 +80,11 @@ ThB == { Scn("in", 70016, scr, FALSE, PlanB, <<>>, TRUE) : scr \in PostScripts }
 ThC == { Scn("out", 70016, scr, TRUE, PlanB, <<>>, FALSE) : scr \in {HS, HS \o <<M("ping")>>, HS \o <<M("malformed")>>} }
 ThD == { Scn("in", 70016, HS, FALSE, PlanB, iv, TRUE) : iv \in {<<"tx">>, <<"block">>} }
 ThE == { Scn("in", 70016, HS, FALSE, PlanA, <<>>, TRUE) }
-ScenariosSafetyThorough == ThA \cup ThB \cup ThC \cup ThD \cup ThE
+\* wrong-network / malformed traffic after the handshake, probe ping behind it:
+\* tolerated only on regtest from localhost
+ThF == { OnNet(Scn("in", 70016, HS \o <<M(k), M("ping")>>, FALSE, PlanB, <<>>, TRUE), n, l) :
+           k \in {"wrongmagic"}, n \in {"regtest", "test3"}, l \in BOOLEAN }
+ScenariosSafetyThorough == ThA \cup ThB \cup ThC \cup ThD \cup ThE \cup ThF
 ScenariosTimers ==
   { Scn(d, 70016, scr, FALSE, PlanB, <<>>, FALSE) : d \in {"in", "out"}, scr \in {HS, <<Ver(70016)>>} }
 ScenariosLiveThorough ==
